@@ -81,6 +81,7 @@ func lemma_C19_Encrypted(withPrior bool, pre []byte, next uint8, data []byte) {
 	verifAssert(len(c) == n0+1 && verifUntouched(c, p0, pre), "C19/Encrypted/appends-one-leaves-rest")
 	x, ok := c[n0].(*Encrypted)
 	verifAssert(ok && x == r && x.NextPayload == next && verifBytesEq(x.EncryptedData, data), "C19/Encrypted/fields")
+	verifAssert(verifDisjoint(x.EncryptedData, data) && verifFresh(x.EncryptedData), "C19/Encrypted/data-copied-into-fresh-storage")
 }
 
 func lemma_C19_KeyExchange(withPrior bool, pre []byte, group uint16, data []byte) {
